@@ -3,7 +3,7 @@ import collections, json, os
 import vp
 import tracecheck
 
-ALL_TXS = '{"t1", "t2", "t3", "t4", "t5", "t6", "t7", "p1", "p2", "p3", "p4", "p5", "p6", "p7", "p8", "p9", "p10", "w1", "w2", "w3", "w4", "c1", "p11", "x1", "x2", "b1", "b2", "b3", "s4"}'
+ALL_TXS = '{"t1", "t2", "t3", "t4", "t5", "t6", "t7", "p1", "p2", "p3", "p4", "p5", "p6", "p7", "p8", "p9", "p10", "w1", "w2", "w3", "w4", "w5", "c1", "p11", "x1", "x2", "b1", "b2", "b3", "s4"}'
 
 KF_DESC = {
     "KF_PoolMasksBlockOrder": "PlayAndRepost validates a peer block against the state that still contains the node's own "
@@ -30,7 +30,7 @@ def gen(run, plans, cfg="Gen_XState.cfg", module="Gen_XState.tla"):
         consts = {"MaxOps": p["ops"], "MaxBlocks": p.get("maxb", 7), "MaxTxPerBlock": p.get("mtx", 2),
                   "Window": p.get("window", 0), "ActiveTxs": p.get("txs", ALL_TXS), "BlockBudget": p.get("budget", 1000)}
         consts.update(p.get("consts", {}))
-        behs = run.tlc_gen(module, cfg, p["num"], p["ops"] + 2, name="gen%d" % k, seed=run.seed * 1000 + k, consts=consts)
+        behs = run.tlc_gen(module, p.get("cfg", cfg), p["num"], p["ops"] + 2, name="gen%d" % k, seed=run.seed * 1000 + k, consts=consts)
         groups.append((p, behs, os.path.join(run.work, "gen%d" % k, "catalog.json")))
     return groups
 
